@@ -30,16 +30,19 @@ Qed.
 
 Lemma roots_incl tyorder pm : incl (roots_of tyorder pm) (U_of pm).
 Proof.
-  intros x Hx. unfold roots_of in Hx. apply filter_In in Hx. destruct Hx as [_ Hx].
-  apply existsb_exists in Hx. destruct Hx as (y & Hy & E). apply Nat.eqb_eq in E. subst.
-  unfold U_of. apply in_or_app; auto.
+  intros x Hx. unfold roots_of in Hx. unfold U_of. apply in_or_app. left.
+  apply in_app_or in Hx. destruct Hx as [Hx|Hx]; apply filter_In in Hx; destruct Hx as [H1 H2]; auto.
+  apply existsb_exists in H2. destruct H2 as (y & Hy & E). apply Nat.eqb_eq in E. subst. exact Hy.
 Qed.
 
-Lemma roots_cover tyorder pm : incl (keys pm) tyorder ->
+Lemma roots_cover tyorder pm :
   forall u, succ_of pm u <> [] -> In u (roots_of tyorder pm).
 Proof.
-  intros Hi u Hs. apply succ_key in Hs. unfold roots_of. apply filter_In. split; auto.
-  apply existsb_exists. exists u. split; auto. apply Nat.eqb_refl.
+  intros u Hs. apply succ_key in Hs. unfold roots_of. apply in_or_app.
+  destruct (existsb (Nat.eqb u) tyorder) eqn:E.
+  - left. apply existsb_exists in E. destruct E as (y & Hy & E). apply Nat.eqb_eq in E. subst y.
+    apply filter_In. split; auto. apply existsb_exists. exists u. split; auto. apply Nat.eqb_refl.
+  - right. apply filter_In. split; auto. rewrite E. reflexivity.
 Qed.
 
 Lemma verify_cases tyorder pm :
@@ -52,13 +55,13 @@ Qed.
 
 (* C07: the cycle check accepts exactly the acyclic maps, for every root order listing all keys *)
 Theorem verify_acyclic_iff tyorder pm :
-  incl (keys pm) tyorder -> verify tyorder pm <> [SFuel] ->
+  verify tyorder pm <> [SFuel] ->
   (verify tyorder pm = [] <-> ~ exists u, path (succ_of pm) u u).
 Proof.
-  intros Hi Hf. destruct (verify_cases tyorder pm) as [(v & cycles & Hm & Hv)|]; [|contradiction].
+  intros Hf. destruct (verify_cases tyorder pm) as [(v & cycles & Hm & Hv)|]; [|contradiction].
   rewrite Hv.
   rewrite <- (mrootsL_verdict (succ_of pm) (U_of pm) (U_closed pm) _ _ _ _
-               (roots_incl tyorder pm) (roots_cover tyorder pm Hi) Hm).
+               (roots_incl tyorder pm) (roots_cover tyorder pm) Hm).
   destruct cycles; cbn; split; intros; try discriminate; auto.
 Qed.
 
